@@ -391,7 +391,7 @@ func c45case(e *c45env, so *shardOut, prevName string, parent *block.Block, ance
 	for _, t := range b.Txns {
 		so.Evals++
 		if seen[t.Hash] {
-			so.violate(tag("generateBlock:transaction-twice"), "the generated block contains transaction "+t.Hash[:8]+" twice", replay)
+			so.violateSized(tag("generateBlock:transaction-twice"), "the generated block contains transaction "+t.Hash[:8]+" twice", replay, len(sel))
 		}
 		seen[t.Hash] = true
 		cid := t.ClientID
@@ -400,7 +400,7 @@ func c45case(e *c45env, so *shardOut, prevName string, parent *block.Block, ance
 		}
 		if want, ok := next[cid]; ok {
 			if t.Nonce != want+1 {
-				so.violate(tag("generateBlock:nonces-not-consecutive"), fmt.Sprintf("sender %s: nonce %d follows %d in the generated block", cid[:8], t.Nonce, want), replay)
+				so.violateSized(tag("generateBlock:nonces-not-consecutive"), fmt.Sprintf("sender %s: nonce %d follows %d in the generated block", cid[:8], t.Nonce, want), replay, len(sel))
 			}
 			next[cid] = t.Nonce
 		}
@@ -409,10 +409,10 @@ func c45case(e *c45env, so *shardOut, prevName string, parent *block.Block, ance
 		} else if t.TransactionType == transaction.TxnTypeSmartContract && c45Builtin[t.FunctionName] {
 			builtins[t.FunctionName]++
 			if builtins[t.FunctionName] > 1 {
-				so.violate(tag("generateBlock:built-in-twice:"+t.FunctionName), "built-in transaction "+t.FunctionName+" occurs twice in the generated block", replay)
+				so.violateSized(tag("generateBlock:built-in-twice:"+t.FunctionName), "built-in transaction "+t.FunctionName+" occurs twice in the generated block", replay, len(sel))
 			}
 		} else {
-			so.violate(tag("generateBlock:foreign-transaction"), "the generated block contains a transaction that is neither in the pool nor a built-in: "+t.Hash[:8], replay)
+			so.violateSized(tag("generateBlock:foreign-transaction"), "the generated block contains a transaction that is neither in the pool nor a built-in: "+t.Hash[:8], replay, len(sel))
 		}
 	}
 	// cost (estimated against the LFB exactly as the protocol defines block cost)
@@ -421,14 +421,14 @@ func c45case(e *c45env, so *shardOut, prevName string, parent *block.Block, ance
 	for _, t := range b.Txns {
 		c, err := e.m.MC.EstimateTransactionCost(e.m.Ctx, lfb, t, chain.WithSync())
 		if err != nil {
-			so.violate(tag("generateBlock:cost-not-estimable"), "cost of an included transaction cannot be estimated: "+err.Error(), replay)
+			so.violateSized(tag("generateBlock:cost-not-estimable"), "cost of an included transaction cannot be estimated: "+err.Error(), replay, len(sel))
 			continue
 		}
 		cost += c
 	}
 	so.Evals++
 	if cost > e.m.MC.ChainConfig.MaxBlockCost() {
-		so.violate(tag("generateBlock:cost-above-limit"), fmt.Sprintf("block cost %d > max_block_cost %d", cost, e.m.MC.ChainConfig.MaxBlockCost()), replay)
+		so.violateSized(tag("generateBlock:cost-above-limit"), fmt.Sprintf("block cost %d > max_block_cost %d", cost, e.m.MC.ChainConfig.MaxBlockCost()), replay, len(sel))
 	}
 	genRoot := util.ToHex(b.ClientState.GetRoot())
 	genChanges := b.ClientState.GetChangeCount()
@@ -436,7 +436,7 @@ func c45case(e *c45env, so *shardOut, prevName string, parent *block.Block, ance
 	// the wire and the verifier
 	rb, err := e.wire(b, json)
 	if err != nil {
-		so.violate(tag("wire:decode-failed"), "the generated block does not survive the wire: "+err.Error(), replay)
+		so.violateSized(tag("wire:decode-failed"), "the generated block does not survive the wire: "+err.Error(), replay, len(sel))
 		return
 	}
 	_, verr := e.verify(ver, rb, ancestors)
@@ -452,26 +452,26 @@ func c45case(e *c45env, so *shardOut, prevName string, parent *block.Block, ance
 			}
 		}
 		if hasBadSig {
-			so.violate(tag("generateBlock:pool-transaction-with-invalid-signature-included:block-rejected"), fmt.Sprintf("generateBlock does not check signatures of pool transactions: block generated by m%d from pool %v contains a transaction whose signature is invalid and is rejected by m%d: %v", gen, names, ver, verr), replay)
+			so.violateSized(tag("generateBlock:pool-transaction-with-invalid-signature-included:block-rejected"), fmt.Sprintf("generateBlock does not check signatures of pool transactions: block generated by m%d from pool %v contains a transaction whose signature is invalid and is rejected by m%d: %v", gen, names, ver, verr), replay, len(sel))
 		} else {
-			so.violate(tag("VerifyBlock:honest-block-rejected:"+errCode(verr)), fmt.Sprintf("block generated by m%d from pool %v is rejected by m%d: %v", gen, names, ver, verr), replay)
+			so.violateSized(tag("VerifyBlock:honest-block-rejected:"+errCode(verr)), fmt.Sprintf("block generated by m%d from pool %v is rejected by m%d: %v", gen, names, ver, verr), replay, len(sel))
 		}
 	} else {
 		if rb.ClientState == nil || util.ToHex(rb.ClientState.GetRoot()) != genRoot || util.ToHex(rb.ClientStateHash) != genRoot {
-			so.violate(tag("VerifyBlock:state-root-differs"), "verifier's recomputed state root differs from the generator's", replay)
+			so.violateSized(tag("VerifyBlock:state-root-differs"), "verifier's recomputed state root differs from the generator's", replay, len(sel))
 		}
 		so.Evals++
 		if rb.ClientState != nil && (rb.ClientState.GetChangeCount() != genChanges || rb.StateChangesCount != genChanges) {
-			so.violate(tag("VerifyBlock:change-count-differs"), fmt.Sprintf("change count: generator %d, declared %d, verifier %d", genChanges, rb.StateChangesCount, rb.ClientState.GetChangeCount()), replay)
+			so.violateSized(tag("VerifyBlock:change-count-differs"), fmt.Sprintf("change count: generator %d, declared %d, verifier %d", genChanges, rb.StateChangesCount, rb.ClientState.GetChangeCount()), replay, len(sel))
 		}
 		if len(rb.Txns) != len(b.Txns) {
-			so.violate(tag("wire:transaction-count-differs"), "transaction count changed on the wire", replay)
+			so.violateSized(tag("wire:transaction-count-differs"), "transaction count changed on the wire", replay, len(sel))
 		} else {
 			for i := range b.Txns {
 				so.Evals++
 				g, v := b.Txns[i], rb.Txns[i]
 				if g.Hash != v.Hash || g.TransactionOutput != v.TransactionOutput || g.OutputHash != v.OutputHash || g.Status != v.Status {
-					so.violate(tag("VerifyBlock:transaction-output-differs"), fmt.Sprintf("transaction %d (%s): generator output %q status %d, verifier output %q status %d", i, g.Hash[:8], g.TransactionOutput, g.Status, v.TransactionOutput, v.Status), replay)
+					so.violateSized(tag("VerifyBlock:transaction-output-differs"), fmt.Sprintf("transaction %d (%s): generator output %q status %d, verifier output %q status %d", i, g.Hash[:8], g.TransactionOutput, g.Status, v.TransactionOutput, v.Status), replay, len(sel))
 				}
 			}
 		}
